@@ -1196,6 +1196,7 @@ pub fn run_one(wl: &Workload, tape: &mut Tape, entropy_seed: u64) -> Result<RunR
         probes,
         panics: out.panics,
         detail: serde_json::json!({"context_switches": out.switches}),
+        extra_keys: vec![],
     })
 }
 
